@@ -27,6 +27,23 @@
 (* raise_nexus / raise_con / remove_nexus / remove_con  and describes the   *)
 (* listeners present while this one part is processed.                      *)
 (*                                                                          *)
+(* Replies of types that are NOT multipart-capable.  A switch may also send  *)
+(* statistics replies the controller has no aggregated event for: vendor    *)
+(* statistics (OFPST_VENDOR - which a vendor extension may well split with  *)
+(* the MORE flag) and types the controller does not know at all ("unk");    *)
+(* and nothing stops a switch from setting MORE on a desc / aggregate       *)
+(* reply.  The property does not say what becomes of THOSE replies, but it  *)
+(* does say that they are "a second request's reply" for every reply of a   *)
+(* multipart-capable type that is being assembled at that moment: they must *)
+(* neither end up in it nor make it lose parts.  So: a part of a vendor /   *)
+(* unknown-type reply raises no aggregated event (there is none), a desc /  *)
+(* aggregate reply that is split is "free" - the events for ITS OWN (type,  *)
+(* xid) are not constrained in the steps concerned (exp.free lists that     *)
+(* pair; an implementation may ignore the flag and fire at once, fire at    *)
+(* the end with either body, or drop the reply) - and in all cases every    *)
+(* other request's assembly is untouched (Isolation) and the other events   *)
+(* are exactly as before.                                                   *)
+(*                                                                          *)
 (* Abstract state: pend[k] = the parts of request k's reply received so far *)
 (* (each part = the sequence of its entries), gen[k] = how many replies for *)
 (* key k have been completed (a transaction id may be used again once its   *)
@@ -47,8 +64,9 @@ CONSTANTS NK,          \* requests (keys) are 1..NK
 Keys == 1..NK
 Multi == {"flow", "table", "port", "queue"}
 Single == {"desc", "aggr"}
+Opaque == {"vendor", "unk"}     \* no aggregated event exists for these
 
-ASSUME /\ \A k \in Keys : KType[k] \in Multi \cup Single
+ASSUME /\ \A k \in Keys : KType[k] \in Multi \cup Single \cup Opaque
        /\ \A j, k \in Keys : j # k => <<KType[j], KXid[j]>> # <<KType[k], KXid[k]>>
 
 VARIABLES pend,     \* [Keys -> Seq(Seq(entry))]
@@ -67,8 +85,16 @@ NewEntries(k, n) ==
   LET have == Len(Flat(pend[k])) IN [i \in 1..n |-> <<k, gen[k], have + i>>]
 
 Event(k, entries) == [t |-> KType[k], x |-> KXid[k], e |-> entries]
-Quiet == [con |-> <<>>, nexus |-> <<>>]
-Raised(ev) == [con |-> <<ev>>, nexus |-> <<ev>>]
+\* con / nexus = the aggregated events that must be seen there (in order), not counting events
+\* for a (type, xid) pair listed in free, which are not constrained in this step
+Quiet == [con |-> <<>>, nexus |-> <<>>, free |-> <<>>]
+Raised(ev) == [con |-> <<ev>>, nexus |-> <<ev>>, free |-> <<>>]
+Free(k) == [con |-> <<>>, nexus |-> <<>>, free |-> <<[t |-> KType[k], x |-> KXid[k]]>>]
+
+\* this part belongs to a reply of a not multipart-capable type that is split all the same
+Odd(k, more) == KType[k] \notin Multi /\ (more \/ pend[k] # <<>>)
+\* the final part of a reply for which the property promises the aggregated event
+Completes(k, more) == ~more /\ KType[k] \notin Opaque /\ ~Odd(k, more)
 
 NoObs == [a |-> "Init", args |-> [x |-> 0], exp |-> Quiet]
 
@@ -86,30 +112,39 @@ Log(a, args, exp) ==
 Part(k, more, n, raw) ==
   /\ gen[k] < KGen[k]
   /\ Len(pend[k]) < KMax[k]
-  /\ KType[k] \in Single => (~more /\ n = 1)
-  /\ LET new == NewEntries(k, n)
+  /\ KType[k] \in Single => n = 1
+  \* a not multipart-capable type is split only where the model has room for the final part
+  /\ (more /\ KType[k] \notin Multi) => Len(pend[k]) + 1 < KMax[k]
+  /\ LET new == IF KType[k] \in Opaque THEN <<>> ELSE NewEntries(k, n)
          args == [k |-> k, t |-> KType[k], x |-> KXid[k], g |-> gen[k],
                   first |-> Len(Flat(pend[k])) + 1, n |-> n, more |-> more, raw |-> raw]
+         quiet == IF Odd(k, more) /\ KType[k] \in Single THEN Free(k) ELSE Quiet
      IN IF more
         THEN /\ pend' = [pend EXCEPT ![k] = Append(@, new)]
              /\ UNCHANGED gen
-             /\ Log("Part", args, Quiet)
+             /\ Log("Part", args, quiet)
         ELSE /\ pend' = [pend EXCEPT ![k] = <<>>]
              /\ gen' = [gen EXCEPT ![k] = @ + 1]
-             /\ Log("Part", args, Raised(Event(k, Flat(pend[k]) \o new)))
+             /\ Log("Part", args, IF Completes(k, more) THEN Raised(Event(k, Flat(pend[k]) \o new))
+                                  ELSE quiet)
 
 \* an unrelated message (echo, packet-in, port status, barrier reply, ...)
 Other(kind) ==
   /\ UNCHANGED <<pend, gen>>
   /\ Log("Other", [kind |-> kind], Quiet)
 
-PartMore(k, n, raw) == Part(k, TRUE, n, raw) /\ TRUE
-PartFinal(k, n, raw) == Part(k, FALSE, n, raw) /\ TRUE
+\* (named for TLC's per-action coverage = the vacuity guard of the check)
+PartMore(k, n, raw) == KType[k] \in Multi /\ Part(k, TRUE, n, raw)
+PartFinal(k, n, raw) == Completes(k, FALSE) /\ Part(k, FALSE, n, raw)
+OddMore(k, n, raw) == KType[k] \notin Multi /\ Part(k, TRUE, n, raw)
+OddFinal(k, n, raw) == ~Completes(k, FALSE) /\ Part(k, FALSE, n, raw)
 More == \E k \in Keys, n \in 0..MaxN, raw \in RawModes : PartMore(k, n, raw)
 Final == \E k \in Keys, n \in 0..MaxN, raw \in RawModes : PartFinal(k, n, raw)
+OddM == \E k \in Keys, n \in 0..MaxN, raw \in RawModes : OddMore(k, n, raw)
+OddF == \E k \in Keys, n \in 0..MaxN, raw \in RawModes : OddFinal(k, n, raw)
 Unrelated == \E kind \in OtherKinds : Other(kind)
 
-Next == More \/ Final \/ Unrelated
+Next == More \/ Final \/ OddM \/ OddF \/ Unrelated
 
 Spec == Init /\ [][Next]_vars
 
@@ -134,20 +169,38 @@ NeverMerged == \A i \in 1..Len(last.exp.con) : EventPure(last.exp.con[i])
 \* the same as an action property: evaluated on EVERY transition (VIEW viewE hides last)
 NeverMergedA == [][NeverMerged']_vars
 
-\* the event fires when and only when a final part arrives, once, on connection and nexus alike
+\* does the step just logged complete a reply the property promises an event for?  (p = pend before the step)
+Fires(st, p) == /\ st.a = "Part"
+                /\ ~st.args.more
+                /\ \/ KType[st.args.k] \in Multi
+                   \/ KType[st.args.k] \in Single /\ p[st.args.k] = <<>>
+
+\* the event fires when and only when such a final part arrives, once, on connection and nexus alike;
+\* in particular a part of a vendor / unknown-type / split desc or aggregate reply makes no OTHER event fire
 ExactlyOnceAfterFinal ==
-  [][/\ Len(last'.exp.con) = IF last'.a = "Part" /\ ~last'.args.more THEN 1 ELSE 0
+  [][/\ Len(last'.exp.con) = IF Fires(last', pend) THEN 1 ELSE 0
      /\ last'.exp.nexus = last'.exp.con]_vars
 
 \* ... and carries every entry of every part of that reply, in arrival order
 AllPartsInOrder ==
-  [][(last'.a = "Part" /\ ~last'.args.more) =>
-       LET k == last'.args.k
-           ev == last'.exp.con[1] IN
-       /\ ev.t = KType[k] /\ ev.x = KXid[k]
-       /\ Len(ev.e) = Len(Flat(pend[k])) + last'.args.n
-       /\ \A i \in 1..Len(ev.e) : ev.e[i] = <<k, gen[k], i>>
-       /\ pend'[k] = <<>> /\ gen'[k] = gen[k] + 1]_vars
+  [][/\ Fires(last', pend) =>
+          LET k == last'.args.k
+              ev == last'.exp.con[1] IN
+          /\ ev.t = KType[k] /\ ev.x = KXid[k]
+          /\ Len(ev.e) = Len(Flat(pend[k])) + last'.args.n
+          /\ \A i \in 1..Len(ev.e) : ev.e[i] = <<k, gen[k], i>>
+     /\ (last'.a = "Part" /\ ~last'.args.more) =>
+          pend'[last'.args.k] = <<>> /\ gen'[last'.args.k] = gen[last'.args.k] + 1]_vars
+
+\* the only events the spec leaves open are those of a split desc / aggregate reply, in the steps that
+\* deliver its parts, and only for its own (type, xid)
+FreeIsOwnOnly ==
+  [][last'.exp.free # <<>> =>
+       /\ last'.a = "Part"
+       /\ KType[last'.args.k] \in Single
+       /\ last'.args.more \/ pend[last'.args.k] # <<>>
+       /\ last'.exp.free = <<[t |-> KType[last'.args.k], x |-> KXid[last'.args.k]]>>
+       /\ last'.exp.con = <<>>]_vars
 
 \* a part only ever affects the assembly of its own request; other messages affect none
 Isolation ==
